@@ -299,3 +299,49 @@ Definition cres_val_eqb (a b : cres val) : bool :=
   | CErr e, CErr f => cerr_eqb e f
   | _, _ => false
   end.
+
+(* ---------------------------------------------------------------- struct flattening
+   The generated encoders write the fields of nested structs in place; a schema
+   recovered from their code is therefore flat. `flat` inlines nested structs
+   (and single-field structs), which does not change the byte format. *)
+Fixpoint flat (s : schema) : schema :=
+  match s with
+  | SArray n s' => SArray n (flat s')
+  | SSlice m s' => SSlice m (flat s')
+  | SStruct l =>
+      let l' := flat_map (fun f => match flat f with SStruct x => x | y => [y] end) l in
+      match l' with [x] => x | _ => SStruct l' end
+  | _ => s
+  end.
+Definition flat_fields (l : list schema) : list schema :=
+  flat_map (fun f => match flat f with SStruct x => x | y => [y] end) l.
+
+Fixpoint schema_eqb (a b : schema) {struct a} : bool :=
+  match a, b with
+  | SUInt x, SUInt y => Nat.eqb x y
+  | SSInt x, SSInt y => Nat.eqb x y
+  | SBool, SBool => true
+  | SArray n x, SArray m y => Nat.eqb n m && schema_eqb x y
+  | SSlice n x, SSlice m y => (n =? m) && schema_eqb x y
+  | SStruct x, SStruct y =>
+      (fix go (x y : list schema) : bool :=
+         match x, y with
+         | [], [] => true
+         | a :: x', b :: y' => schema_eqb a b && go x' y'
+         | _, _ => false
+         end) x y
+  | _, _ => false
+  end.
+Fixpoint schemas_eqb (x y : list schema) : bool :=
+  match x, y with
+  | [], [] => true
+  | a :: x', b :: y' => schema_eqb a b && schemas_eqb x' y'
+  | _, _ => false
+  end.
+Definition msg_flat_eqb (a b : msg_schema) : bool :=
+  schemas_eqb (flat_fields (m_fields a)) (flat_fields (m_fields b)) &&
+  match m_omit a, m_omit b with
+  | None, None => true
+  | Some (m, s), Some (m', s') => (m =? m') && schema_eqb (flat s) (flat s')
+  | _, _ => false
+  end.
